@@ -24,3 +24,91 @@ def sighash_witness_v0(script: Bytes(cls=CScript), txTo: Obj(OneOf(CTransaction,
     invariant(1, serialize_sequence == enc_seqs(txTo.vin[:_k]))
     invariant(2, serialize_outputs == enc_txouts(txTo.vout[:_k]))
     ensures(result == hash256(bip143_preimage(txTo, script, inIdx, amount, hashtype)))
+
+
+# ---- bounded units: the digest on generated cases (also the stand-in inputs of the proved contract above), among them
+# ---- transactions WITHOUT outputs, every hash-type byte, and repeated hashing of one mutable transaction object that is
+# ---- edited in between (a digest part remembered from an earlier call would show there)
+@contract('bitcoin.core.script:SignatureHash', name='sighash_witness_v0_generated', prop=P)
+def sighash_witness_v0_generated(script: Bytes(cls=CScript), txTo: Any, inIdx: Int, hashtype: Int, amount: Int,
+                                 sigversion: Const(SIGVERSION_WITNESS_V0)):
+    """BOUNDED: equals the BIP143 digest on generated transactions with 1-3 inputs and 0-3 outputs, mutable and
+    immutable, with and without witness, all 256 hash-type bytes, amounts across the 64-bit range"""
+    option(bounded=600)
+    ensures(result == hash256(bip143_preimage(txTo, script, inIdx, amount, hashtype)))
+
+
+@contract('bitcoin.core.script:SignatureHash', name='sighash_witness_v0_after_edit', prop=P)
+def sighash_witness_v0_after_edit(script: Bytes(cls=CScript), txTo: Any, inIdx: Int, hashtype: Int, amount: Int,
+                                  sigversion: Const(SIGVERSION_WITNESS_V0)):
+    """BOUNDED: the digest of a mutable transaction that was hashed before and edited since (outputs, inputs, sequence
+    numbers, lock time) is the BIP143 digest of its CURRENT field values"""
+    option(bounded=400)
+    ensures(result == hash256(bip143_preimage(txTo, script, inIdx, amount, hashtype)))
+
+
+from pyvc import replay as _replay
+from contracts.common import _mk_tx, _desc_tx, _rb, _good_script, _bytes_desc
+from bitcoin.core import CMutableTransaction, CMutableTxOut, CMutableTxIn, CMutableOutPoint
+
+
+def _gen_sighash_case(rng, edit=False):
+    tx = _mk_tx(rng, witness=rng.random() < 0.3)
+    m = CMutableTransaction.from_tx(tx)
+    if rng.random() < 0.25:
+        m.vout = []                                     # no outputs at all: hashOutputs is the hash of the empty string
+    mutable = edit or rng.random() < 0.4
+    d = _desc_tx(m if mutable else CTransaction.from_tx(m), mutable)
+    ht = rng.choice([1, 2, 3, 0x81, 0x82, 0x83, 0, 4, 0x80, 0xff, rng.randrange(256), rng.randrange(256)])
+    case = {'script': _bytes_desc(_good_script(rng), 'bitcoin.core.script:CScript'), 'txTo': d,
+            'inIdx': rng.randrange(len(m.vin)), 'hashtype': ht,
+            'amount': rng.choice([0, 1, 50 * 10**8, 21 * 10**14, 2**63 - 1, rng.getrandbits(62)]),
+            'sigversion': SIGVERSION_WITNESS_V0}
+    if edit:
+        case = dict(case, __build__='c04_edit', ops=[rng.choice(['add_out', 'del_out', 'value', 'spk', 'seq', 'lock', 'add_in',
+                                                                   'prevout', 'version', 'clear_out'])
+                                                     for _ in range(rng.randint(1, 3))],
+                    first_hashtype=rng.choice([ht, 1, 0x81, 3, 2]), seed=rng.getrandbits(32))
+    return case
+
+
+def _build_c04_edit(inputs, chain):
+    """hash once, edit the same object, hand it to the evaluated call"""
+    import random
+    from bitcoin.core.script import SignatureHash
+    rng = random.Random(inputs['seed'])
+    tx = _replay.decode_value(inputs['txTo'])
+    script = _replay.decode_value(inputs['script'])
+    try:
+        SignatureHash(script, tx, inputs['inIdx'], inputs['first_hashtype'], amount=inputs['amount'],
+                      sigversion=SIGVERSION_WITNESS_V0)
+    except Exception:
+        pass
+    for op in inputs['ops']:
+        if op == 'add_out':
+            tx.vout.append(CMutableTxOut(rng.choice([0, 1, 10**8]), CScript(_good_script(rng))))
+        elif op == 'del_out' and tx.vout:
+            del tx.vout[rng.randrange(len(tx.vout))]
+        elif op == 'clear_out':
+            tx.vout = []
+        elif op == 'value' and tx.vout:
+            tx.vout[rng.randrange(len(tx.vout))].nValue = rng.choice([0, 7, 10**8 + 1])
+        elif op == 'spk' and tx.vout:
+            tx.vout[rng.randrange(len(tx.vout))].scriptPubKey = CScript(_good_script(rng))
+        elif op == 'seq':
+            tx.vin[rng.randrange(len(tx.vin))].nSequence = rng.getrandbits(32)
+        elif op == 'lock':
+            tx.nLockTime = rng.getrandbits(32)
+        elif op == 'version':
+            tx.nVersion = rng.choice([1, 2, 3])
+        elif op == 'add_in':
+            tx.vin.append(CMutableTxIn(CMutableOutPoint(_rb(rng, 32), rng.getrandbits(32)), CScript(), rng.getrandbits(32)))
+        elif op == 'prevout':
+            tx.vin[rng.randrange(len(tx.vin))].prevout.n = rng.getrandbits(32)
+    return {'script': script, 'txTo': tx, 'inIdx': inputs['inIdx'], 'hashtype': inputs['hashtype'],
+            'amount': inputs['amount'], 'sigversion': SIGVERSION_WITNESS_V0}
+
+
+_replay.BUILD_HOOKS['c04_edit'] = _build_c04_edit
+_replay.GENERATORS.update({'sighash_witness_v0_generated': _gen_sighash_case, 'sighash_witness_v0': _gen_sighash_case,
+                           'sighash_witness_v0_after_edit': lambda rng: _gen_sighash_case(rng, True)})
